@@ -25,7 +25,9 @@ def _nodes(world, sels, path, pt, out):
             if s["sub"]:
                 ft = ""
                 td = world["types"].get(pt)
-                if td and s["name"] in td["fields"]:
+                if pt == "Query" and s["name"] == "node":
+                    ft = "Node"
+                elif td and s["name"] in td["fields"]:
                     ft = td["fields"][s["name"]]["type"]["ty"]
                 _nodes(world, s["sub"], path + [s["key"]], ft, out)
         else:
@@ -71,19 +73,25 @@ def plan_reason(world, op, plan):
         d = svc[url]["decl"]
         if f == "__typename":
             return True
+        has_node = any(world["types"].get(t, {}).get("node") for t in d)
+        if (pt == "Query" and f == "node") or (pt == "Node" and f == "id"):
+            return has_node
         if f == "id":
             return pt in d and world["types"].get(pt, {}).get("node", False)
         return pt in d and f in d[pt]
 
-    def scrubbed(path, pt, f):
-        if world["types"].get(pt, {}).get("kind") in ("INTERFACE", "UNION"):
-            return all(f in plan["scrub"].get(".".join(path), {}).get(m, []) for m in world["types"][pt]["members"])
-        return f in plan["scrub"].get(".".join(path), {}).get(pt, [])
     def is_abs(t):
-        return world["types"].get(t, {}).get("kind") in ("INTERFACE", "UNION")
+        return t == "Node" or world["types"].get(t, {}).get("kind") in ("INTERFACE", "UNION")
 
     def members(t):
+        if t == "Node":
+            return sorted(x for x, td in world["types"].items() if td.get("node"))
         return world["types"][t]["members"]
+
+    def scrubbed(path, pt, f):
+        if is_abs(pt):
+            return all(f in plan["scrub"].get(".".join(path), {}).get(m, []) for m in members(pt))
+        return f in plan["scrub"].get(".".join(path), {}).get(pt, [])
 
     def same_spot(a, b):
         return a[0] == b[0] and a[2] == b[2] and a[3] == b[3]
